@@ -210,7 +210,11 @@ CLAIMED = {
              "write_all, append_all, reads, remove, remove_all (off the root), symlink, set_cwd and the queries: the call returns exactly the reference call's value or error kind and leaves exactly "
              "the reference call's tree; a single-target call that reports failure (mkfile, mkdir_p / mkdir_m, write_all, append_all, remove, "
              "symlink, set_cwd, move_p) leaves the three indexes exactly as they were (failed_call_unchanged); chown without follow refines the "
-             "reference chown (Memfs/RefineChown.v). move_p is specified exactly and proved in Memfs/WfMove.v (C09). "
+             "reference chown (Memfs/RefineChown.v); and for whole histories (Memfs/RefineHistory.v): a reference filesystem working on the flat tree "
+             "alone (resolving its own arguments against the tree's cwd) such that from every well-formed kind-sound state - the fresh "
+             "filesystem in particular - ANY history of mkfile, mkdir_p, mkdir_m, write_all, append_all, read_all, remove, remove_all (off the "
+             "root), symlink, set_cwd, chown without follow, exists / is_dir / is_file / is_symlink and cwd gives call by call exactly the "
+             "reference's value or error kind and ends in exactly the reference's tree (history_refines). move_p is specified exactly and proved in Memfs/WfMove.v (C09). "
              "The mirror is tied to the real Memfs by a model-guided BFS of every reachable state of a bounded namespace x the full call "
              "alphabet and by random histories: every call's value / error kind and the complete resulting state; 'a failed single-target call "
              "leaves the tree as it was' is also evaluated on the implementation's pre/post snapshots. Partial: copy, chmod and "
